@@ -488,14 +488,22 @@ class Recorder:
                 X, lab = self._pred_calls[-1]
                 for xi, li in zip(X, lab):
                     lab_of.setdefault(_row(xi), set()).add(int(li))
-            for data, res in self._stud_calls:
+            populated = set()
+            for v in lab_of.values():
+                populated |= v
+            for j, (data, res) in enumerate(self._stud_calls):
                 if not self._pred_calls:
                     labels.append(0)
                     continue
                 seen = set()
                 for row in data:
                     seen |= lab_of.get(_row(row), {-1})
-                labels.append(seen.pop() if len(seen) == 1 else -1)
+                if j not in populated and len(self._stud_calls) > max(populated, default=0) and seen and seen <= populated:
+                    labels.append(-2)  # fallback mode of a cluster that attracted no training particle: fitted from the whole training pool
+                elif len(seen) == 1:
+                    labels.append(seen.pop())
+                else:
+                    labels.append(-1)
         else:
             labels = [0] * int(getattr(ms, "K", 1))
         self._last_modes = (ms, labels)
